@@ -216,7 +216,7 @@ package formula
 //@ func formatStringFromArgs
 //@   tags [C01]
 //@   panics never
-//@   loop 1: invariant rangeindex >= -1 && rangeindex < max(len(args), 1)
+//@   loop 1: invariant rangeindex >= -1 && rangeindex < len(args)
 //@           decreases len(args) - rangeindex
 
 //@ func toString
@@ -1211,3 +1211,120 @@ package formula
 //@           invariant[C07] r.world == stepN(old(r.world), expr.Elements, i)
 //@           invariant[C07] forall j int :: 0 <= j && j < i ==> list[j] == valOf(stepN(old(r.world), expr.Elements, j), expr.Elements.nodes[j])
 //@           decreases len(expr.Elements.nodes) - i
+
+// ---------------------------------------------------------------------------
+// Builtins: strings (C17)
+// ---------------------------------------------------------------------------
+
+//@ spec clamp(x int, lo int, hi int) int := x < lo ? lo : (x > hi ? hi : x)
+
+//@ func funStartWith
+//@   tags [C17,C03]
+//@   panics never
+//@   ensures result1 == nil
+//@   ensures[C17] result0 == hasPrefix(s, substr)
+
+//@ func funEndWith
+//@   tags [C17,C03]
+//@   panics never
+//@   ensures result1 == nil
+//@   ensures[C17] result0 == hasSuffix(s, substr)
+
+//@ func funContains
+//@   tags [C17,C03]
+//@   panics never
+//@   ensures result1 == nil
+//@   ensures[C17] result0 == contains(s, substr)
+
+//@ func funFind
+//@   tags [C17,C03]
+//@   panics never
+//@   ensures result1 == nil
+//@   ensures[C17] result0 == indexOf(s, substr)
+
+//@ func funLeft
+//@   tags [C17,C03]
+//@   panics never
+//@   ensures result1 == nil
+//@   ensures[C17] result0 == v[:clamp(ld, 0, len(v))]
+
+//@ func funRight
+//@   tags [C17,C03]
+//@   panics never
+//@   ensures result1 == nil
+//@   ensures[C17] result0 == v[len(v) - clamp(ld, 0, len(v)):]
+
+//@ func funMid
+//@   tags [C17,C03]
+//@   panics never
+//@   ensures result1 == nil
+//@   ensures[C17] result0 == s[clamp(start, 0, len(s)):clamp(end, clamp(start, 0, len(s)), len(s))]
+
+//@ func funLen
+//@   tags [C17,C03]
+//@   panics never
+//@   ensures result1 == nil && result0 == len(v)
+
+//@ func funLower
+//@   tags [C17,C03]
+//@   panics never
+//@   ensures result1 == nil && result0 == toLowerS(v)
+
+//@ func funUpper
+//@   tags [C17,C03]
+//@   panics never
+//@   ensures result1 == nil && result0 == toUpperS(v)
+
+//@ func funTrim
+//@   tags [C17,C03]
+//@   panics never
+//@   ensures result1 == nil && result0 == trimSpaceS(s)
+
+//@ func funReplace
+//@   tags [C17,C03]
+//@   panics never
+//@   ensures result1 == nil
+//@   ensures[C17] len(old) > 0 ==> result0 == replaceAll(s, old, new)
+
+//@ func funLpad
+//@   tags [C17,C03]
+//@   panics never
+//@   ensures result1 == nil
+//@   ensures[C17] len(s) > l ==> result0 == s[:max(l, 0)]
+//@   ensures[C17] len(s) <= l ==> result0 == repeatS(ps, l - len(s)) ++ s
+//@   ensures[C17] len(s) <= l && len(ps) == 1 ==> len(result0) == l && hasSuffix(result0, s)
+
+//@ func funRpad
+//@   tags [C17,C03]
+//@   panics never
+//@   ensures result1 == nil
+//@   ensures[C17] len(s) > l ==> result0 == s[:max(l, 0)]
+//@   ensures[C17] len(s) <= l ==> result0 == s ++ repeatS(ps, l - len(s))
+//@   ensures[C17] len(s) <= l && len(ps) == 1 ==> len(result0) == l && hasPrefix(result0, s)
+
+//@ func funRegexp
+//@   tags [C17,C03]
+//@   panics never
+//@   ensures[C03] !reValid(reg) ==> result1 != nil
+//@   ensures[C17] reValid(reg) ==> result1 == nil && result0 == reMatch(reg, s)
+
+//@ func funJoin
+//@   tags [C17,C03]
+//@   panics never
+//@   ensures result1 == nil && result0 == joinS(arr, join)
+
+//@ func funIncludes
+//@   tags [C17,C03]
+//@   panics never
+//@   ensures result1 == nil
+//@   ensures[C17] result0 == (exists i int :: 0 <= i && i < len(list) && list[i] == item)
+//@   loop 1: invariant rangeindex >= -1 && rangeindex < len(list) && (forall i int :: 0 <= i && i <= rangeindex ==> list[i] != item)
+//@           decreases len(list) - rangeindex
+
+//@ func funMapToArr
+//@   tags [C17,C03]
+//@   panics never
+//@   ensures result1 == nil && len(result0) == len(m)
+//@   ensures[C17] forall i int :: 0 <= i && i < len(m) ==> result0[i] == m[i][key]
+//@   loop 1: invariant rangeindex >= -1 && rangeindex < len(m) && len(result) == rangeindex + 1 && (forall i int :: 0 <= i && i <= rangeindex ==> result[i] == m[i][key])
+//@           decreases len(m) - rangeindex
